@@ -203,6 +203,19 @@ def prove_one(task):
                         r["replay_notes"] = tried[:5]
             out["obligations"].append(r)
         out["builtins"] = sorted(B.USED_BUILTINS)
+        # structural drift: the function's statement skeleton differs from the one the contract was attached to
+        try:
+            import json as _json
+            from .source import skeleton
+            fps = _json.load(open(os.path.join(os.path.dirname(os.path.dirname(os.path.abspath(__file__))), "specs", "fingerprints.json")))
+            if key in fps and fps[key] != skeleton(fn):
+                for r in out["obligations"]:
+                    if r["status"] in ("failed", "unknown") and not r.get("replayed") and r.get("expect") == "valid":
+                        r["status"] = "drift"
+                        r["detail"] = ("the function was restructured since the contract was attached (statement skeleton changed) and this "
+                                       "obligation no longer goes through without a reproducing input: contract needs re-attachment | " + (r.get("detail") or ""))
+        except FileNotFoundError:
+            pass
     except Exception:
         out["error"] = traceback.format_exc()[-2000:]
     return out
